@@ -103,6 +103,16 @@ func (g ABCIGenesis) Spec() GenesisSpec {
 	spec.Minter = &mintertypes.GenesisState{Params: mp, MinterState: mintertypes.MinterState{SequenceId: g.Minter.FirstID, AmountMinted: sdk.ZeroInt(),
 		RemainderToMint: sdk.ZeroDec(), RemainderFromPreviousMinter: sdk.ZeroDec(), LastMintBlockTime: T0}}
 	spec.Distributor = &distrtypes.GenesisState{Params: g.Distr.Build()}
+	// the accounts that a many-sources configuration sweeps hold coins from the start
+	for _, sd := range g.Distr.Subs {
+		for _, s := range sd.Sources {
+			for k := 0; k < 40; k++ {
+				if s.Type == tBase && s.Id == FreshAddr(7000+k).String() {
+					spec.ExtraBalances = append(spec.ExtraBalances, banktypes.Balance{Address: s.Id, Coins: sdk.NewCoins(sdk.NewInt64Coin(Denom, int64(5000+k)))})
+				}
+			}
+		}
+	}
 	vg := DefaultVestingGenesis()
 	if g.VestingDenom != "" {
 		vg.Params.Denom = g.VestingDenom
